@@ -12,7 +12,7 @@ Extraction "model.ml"
   Terminal.getIntegerHandle Terminal.getRealHandle Terminal.setFromHandle_INTEGER
   Terminal.setFromHandle_REAL Terminal.setFromHandle_BOOLEAN Terminal.intMin Terminal.intMax
   MemSpec.accept MemSpec.fl_init MemSpec.fl_request MemSpec.fl_recycle
-  Audit.audit
+  Audit.audit Audit.dom_ok
   Reach.dpost Reach.dpre Reach.dist_bfs Reach.dmin
   Reach.post_dd Reach.pre_dd Reach.reach_dd Reach.rreach_dd Reach.vm_dd Reach.mv_dd Reach.rel_sz Reach.cross_dd
   Enum.enum Enum.cardinality Enum.node_count Enum.edge_count Enum.members Enum.index_table Enum.get_element
